@@ -1,5 +1,6 @@
 import Driver.Util
 import Driver.Frame
+import OAP.Model.Inflate
 namespace Driver
 open OAP
 
@@ -19,5 +20,28 @@ def opGzNote (a : Args) : Option String :=
   | ("concurrent", _) :: _ => some "done"
   | _ => some "ok"
 
-def gzOps : List (String × (Args → Option String)) := [("gz.dec", opGzDec), ("gz.note", opGzNote)]
+/-- `gunzip hex=<bytes> [ms=0]`: the native gzip reader (`OAP.Inflate.gunzip`, multistream as the library's `Decompress`;
+`ms=0` selects `gunzipFirst`, the `Multistream(false)` variant). `ok len:<n>,fnv:<fnv1a-64>` for a complete valid stream,
+`err` otherwise (header rejected, or an error after some output) -/
+def opGunzip (a : Args) : Option String := do
+  let bs ← a.bytes? "hex"
+  let r := if a.get? "ms" == some "0" then Inflate.gunzipFirst bs else Inflate.gunzip bs
+  match r with
+  | some (out, true) => pure s!"ok len:{out.length},fnv:{(fnv1a out).toNat}"
+  | _ => pure "err"
+
+/-- `inflate hex=<bytes>`: raw deflate stream; `ok len:<n>,fnv:<fnv>,rest:<unread bytes>` | `err` -/
+def opInflate (a : Args) : Option String := do
+  let bs ← a.bytes? "hex"
+  match Inflate.inflate bs with
+  | some (out, rest) => pure s!"ok len:{out.length},fnv:{(fnv1a out).toNat},rest:{rest.length}"
+  | none => pure "err"
+
+/-- `gzstored hex=<bytes>`: the native stored-block compressor's stream, as hex -/
+def opGzStored (a : Args) : Option String := do
+  let bs ← a.bytes? "hex"
+  pure (toHex (Inflate.storedGzip bs))
+
+def gzOps : List (String × (Args → Option String)) :=
+  [("gz.dec", opGzDec), ("gz.note", opGzNote), ("gunzip", opGunzip), ("inflate", opInflate), ("gzstored", opGzStored)]
 end Driver
